@@ -20,9 +20,10 @@
      one()/zero(), which is literally the loop of SimpleDDNNFEvaluator._calculate_weight
      (ModelCircuit.alg_sr folds from the right; in a commutative semiring that is the same value, but
      the symbolic strings differ: "((a + b) + c)" against "(a + (b + c))"). *)
-From Coq Require Import List Bool Arith String Ascii.
+From Coq Require Import List Bool Arith String Ascii Reals QArith.
 From PL.C10 Require Import ModelCircuit.
 Import ListNotations.
+Local Open Scope nat_scope.
 Local Open Scope string_scope.
 
 (* ------------------------------------------------------------------ expressions *)
@@ -86,38 +87,36 @@ Definition spell (t : tok) : string :=
   end.
 Definition spell_all (ts : list tok) : string := fold_right (fun t acc => spell t ++ acc) "" ts.
 
-(* ------------------------------------------------------------------ numbers *)
-Record num_ops : Type := {
-  num :> Type;
-  n0 : num; n1 : num;
-  nadd : num -> num -> num; nsub : num -> num -> num;
-  nmul : num -> num -> num; ndiv : num -> num -> num }.
+(* ------------------------------------------------------------------ meaning and reader, generic in the number type *)
+Inductive addop := OAdd | OSub.
+Inductive mulop := OMul | ODiv.
 
-(* direct meaning of an expression, given the values of the atoms *)
 Section Denote.
-  Variable K : num_ops.
+  Variable K : Type.
+  Variables k0 k1 : K.
+  Variables kadd ksub kmul kdiv : K -> K -> K.
   Variable aval : string -> K.
+
+  (* direct meaning of an expression, given the values of the atoms *)
   Fixpoint denote (e : sx) : K :=
     match e with
     | SAtom s => aval s
-    | SAdd a b => nadd K (denote a) (denote b)
-    | SMul a b => nmul K (denote a) (denote b)
-    | SNeg a => nsub K (n1 K) (denote a)
-    | SDiv a z => ndiv K (denote a) (denote z)
+    | SAdd a b => kadd (denote a) (denote b)
+    | SMul a b => kmul (denote a) (denote b)
+    | SNeg a => ksub k1 (denote a)
+    | SDiv a z => kdiv (denote a) (denote z)
     end.
 
   (* ---------------------------------------------------------------- the reader *)
-  Inductive addop := OAdd | OSub.
-  Inductive mulop := OMul | ODiv.
-  Definition apply_add (o : addop) (s p : K) : K := match o with OAdd => nadd K s p | OSub => nsub K s p end.
-  Definition apply_mul (o : mulop) (p v : K) : K := match o with OMul => nmul K p v | ODiv => ndiv K p v end.
+  Definition apply_add (o : addop) (s p : K) : K := match o with OAdd => kadd s p | OSub => ksub s p end.
+  Definition apply_mul (o : mulop) (p v : K) : K := match o with OMul => kmul p v | ODiv => kdiv p v end.
 
   (* one frame per open parenthesis: the sum read so far `s`, the pending additive operator, the
      product read so far `p` and (when an operand is expected) the pending multiplicative operator *)
   Inductive frame : Type :=
   | WantOperand (s : K) (so : addop) (p : K) (po : mulop)
   | WantOperator (s : K) (so : addop) (p : K).
-  Definition fresh : frame := WantOperand (n0 K) OAdd (n1 K) OMul.
+  Definition fresh : frame := WantOperand k0 OAdd k1 OMul.
 
   Fixpoint run (stk : list frame) (ts : list tok) : option K :=
     match ts with
@@ -133,14 +132,20 @@ Section Denote.
           run (WantOperator s' so' (apply_mul po' p' (apply_add so s p)) :: k) r
       | TStar, WantOperator s so p :: k => run (WantOperand s so p OMul :: k) r
       | TSlash, WantOperator s so p :: k => run (WantOperand s so p ODiv :: k) r
-      | TPlus, WantOperator s so p :: k => run (WantOperand (apply_add so s p) OAdd (n1 K) OMul :: k) r
-      | TMinus, WantOperator s so p :: k => run (WantOperand (apply_add so s p) OSub (n1 K) OMul :: k) r
+      | TPlus, WantOperator s so p :: k => run (WantOperand (apply_add so s p) OAdd k1 OMul :: k) r
+      | TMinus, WantOperator s so p :: k => run (WantOperand (apply_add so s p) OSub k1 OMul :: k) r
       | _, _ => None
       end
     end.
   Definition read (ts : list tok) : option K := run [fresh] ts.
 End Denote.
 Arguments WantOperand {K}. Arguments WantOperator {K}.
+
+(* over the reals (what the theorems are about) and over Q (what can be run) *)
+Definition denoteR (aval : string -> R) : sx -> R := denote R 1%R Rplus Rminus Rmult Rdiv aval.
+Definition readR (aval : string -> R) : list tok -> option R := read R 0%R 1%R Rplus Rminus Rmult Rdiv aval.
+Definition denoteQ (aval : string -> Q) : sx -> Q := denote Q 1%Q Qplus Qminus Qmult Qdiv aval.
+Definition readQ (aval : string -> Q) : list tok -> option Q := read Q 0%Q 1%Q Qplus Qminus Qmult Qdiv aval.
 
 (* ------------------------------------------------------------------ evaluation with left folds *)
 Definition ssum_l {S : sr_ops} (l : list S) : S := fold_left (sadd S) l (s0 S).
